@@ -24,6 +24,7 @@ import (
 )
 
 const verifDir = "/verif"
+
 // repoDir is the tree lal is built from. VERIF_REPO (used only for screening seeded changes in scratch
 // worktrees, never by the registered commands) points it elsewhere; outDir then receives work files,
 // evidence and replays instead of /verif.
@@ -43,6 +44,7 @@ func init() {
 		_ = os.MkdirAll(outDir, 0o755)
 	}
 }
+
 const goBin = "go1.26.8"
 
 func goEnv() []string {
@@ -235,10 +237,13 @@ type workerOut struct {
 	crashLog string
 	stalled  bool
 	exitErr  error
+	// recycled: the worker handed over after this many of its runs (memory), -1 otherwise
+	recycled int
 }
 
 func runWorker(bin, prop, tier string, seed uint64, from, stride, n int, budget time.Duration, outFile string, stallAfter time.Duration, extra ...string) workerOut {
 	var wo workerOut
+	wo.recycled = -1
 	args := []string{"-test.run", "^TestWorker$", "-test.timeout", "0",
 		"-sim.prop", prop, "-sim.seed", strconv.FormatUint(seed, 10), "-sim.from", strconv.Itoa(from), "-sim.stride", strconv.Itoa(stride),
 		"-sim.n", strconv.Itoa(n), "-sim.tier", tier, "-sim.out", outFile}
@@ -277,6 +282,8 @@ func runWorker(bin, prop, tier string, seed uint64, from, stride, n int, budget 
 				}
 			} else if strings.HasPrefix(line, "DONE ") {
 				curDone = true
+			} else if strings.HasPrefix(line, "RECYCLE next=") {
+				wo.recycled, _ = strconv.Atoi(strings.TrimPrefix(line, "RECYCLE next="))
 			}
 			mu.Unlock()
 		}
@@ -425,7 +432,7 @@ func cmdCheck(args []string) int {
 			from := w
 			done := 0
 			var all workerOut
-			for part := 0; part < 200; part++ {
+			for part := 0; part < 20000; part++ {
 				remaining := tp.budget - time.Since(started)
 				if tp.budget > 0 && remaining <= time.Second {
 					break
@@ -443,6 +450,11 @@ func cmdCheck(args []string) int {
 				}
 				if o.stalled {
 					all.stalled = true
+				}
+				if o.recycled > 0 && o.exitErr == nil {
+					done += o.recycled
+					from += o.recycled * *workers
+					continue
 				}
 				all.exitErr = o.exitErr
 				break
